@@ -10,6 +10,7 @@ import Nlmodel.Proofs.Lemmas.Resolve7Top
 import Nlmodel.Proofs.Lemmas.AlphaTop
 import Nlmodel.Proofs.Lemmas.AlphaOnTop
 import Nlmodel.Proofs.Lemmas.NameEvalC09
+import Nlmodel.Proofs.Lemmas.NameEvalFnMain
 namespace Nl
 namespace C09
 
@@ -218,6 +219,39 @@ theorem C09_names_use_after_block_undeclared (sc : List (List Text)) (x : Text) 
 /-- non-vacuity: shadowing in nested blocks inside a loop; both evaluators give 4 (TEST) and the theorem applies -/
 theorem C09_name_scoping_example : ∃ r, resolveProgram NameEval.demo = .ok r ∧ ∀ F, NameEval.evalProgram F NameEval.demo = Spec.evalProgram F r :=
   NameEval.demo_agree
+
+/-! ### ... and with FUNCTIONS (`Spec/NameEvalFn.lean`, `Lemmas/NameEvalFn*.lean`, 4 000 lines)
+
+The name-based evaluator extended with named and anonymous function literals at top level, calls, parameters by position (missing
+ones null, the arity rule of the semantics), locals declared by `stel` in the body's own scopes, `antwoord`, recursion — again with no
+resolver, no binder ids and no slots.  A function value is closure-free: parameter names and the source body, plus the number of
+top-level declarations visible at the literal (lookup inside a body is LEXICAL: the activation's own scopes, then the top-level names
+that preceded the literal, with their current values — never a scope of the caller).  `declaredFn` is the static rule with functions:
+inside a body an identifier must be a parameter, a local declared before in an enclosing block of the body, or a top-level name
+visible at the literal. -/
+
+/-- the whole stage-4 source fragment (`SimF.SrcTop`: integers, booleans, operators, globals, blocks, `als`, `zolang`, `stop`/`volgende`,
+    named and anonymous function literals at top level, calls, parameters, locals, `antwoord`, recursion): the resolver rejects the
+    program — with a reference error, the only error it can give here — exactly when the static name rule does; otherwise the
+    definitional semantics on the resolved tree equals the name-based semantics on the source tree for every fuel -/
+theorem C09_resolver_implements_name_scoping_with_functions (ast : Block) (hs : SimF.SrcTop ast) :
+    (NameEvalFn.declaredFn ast = false ∧ resolveProgram ast = .error .reference) ∨
+    (NameEvalFn.declaredFn ast = true ∧ ∃ r, resolveProgram ast = .ok r ∧ ∀ F, NameEvalFn.evalProgram F ast = Spec.evalProgram F r) :=
+  NameEvalFn.c09_functions ast hs
+
+/-- "a function body sees ... not the locals of whoever calls it", statically: `functie f() { x .. }  functie g(..) { stel x = ..; f() .. }`
+    is rejected whatever else the two bodies contain -/
+theorem C09_callers_locals_are_invisible (f g x : Text) (psg : List Text) (e : Expr) (restf restg rest : Block) (hfx : x ≠ f) :
+    NameEvalFn.declaredFn (.cons (.expr (.func f [] (.cons (.expr (.ident x)) restf)))
+      (.cons (.expr (.func g psg (.cons (.letS x e) (.cons (.expr (.call (.ident f) .nil)) restg)))) rest)) = false :=
+  NameEvalFn.callers_local_undeclared f g x psg e restf restg rest hfx
+
+/-- ... and dynamically: a call that returns leaves the caller's activation (its scopes of names and values) exactly as the
+    evaluation of the callee expression left it; only top-level variables may have changed -/
+theorem C09_call_keeps_callers_activation (f : Nat) (fe : Expr) (as : Exprs) (st st1 st2 st' : NameEvalFn.FState) (xs : List NameEvalFn.NVal)
+    (fv v : NameEvalFn.NVal) (h1 : NameEvalFn.evalEs f as st = .val xs st1) (h2 : NameEvalFn.evalE f fe st1 = .val fv st2)
+    (h : NameEvalFn.evalE (f + 1) (.call fe as) st = .val v st') : st'.locals = st2.locals ∧ st'.vis = st2.vis :=
+  NameEvalFn.call_keeps_caller_activation f fe as st st1 st2 st' xs fv v h1 h2 h
 
 end C09
 end Nl
